@@ -160,6 +160,8 @@ struct TmrRun {
             else if (o.k == "delete") { int64_t r = o.arg(0); int id; if (r < 0) id = r == -1 ? -1 : r == -2 ? (int)maxN : r == -3 ? 32767 : (int)(-r % 40); else if (acts.empty()) id = (int)(r % (int64_t)maxN); else id = acts[(size_t)(r % (int64_t)acts.size())].id; do_delete_id(id); }
             else if (o.k == "tick") { do_tick((uint64_t)o.arg(0)); }
             else if (o.k == "process") { if (preemptive) do_process(); }
+            else if (o.k == "reinit") {   // the application stops the node and initialises it again on the same (used, not zeroed) memory: an empty pool of full capacity
+                if (preemptive) continue; w.cur = 0; CONodeStop(w.N(0)); w.init(0); acts.clear(); liveById.assign(maxN, -1); cov.hit("reinit-on-used-memory"); if (CONodeGetErr(w.N(0)) != CO_ERR_NONE) { /* not a timer matter */ } }
             else if (o.k == "conv") { conv((uint16_t)o.arg(0), o.arg(1) ? CO_TMR_UNIT_100US : CO_TMR_UNIT_1MS); }
             if (w.fatal) fail("fatal", "fatal error callback");
             if (S().lockUnbalanced) fail("lock/unbalanced", "unlock without lock");
@@ -221,6 +223,7 @@ Plan gen_tmr(Rng &r, bool thorough, bool preemptive) {
         else if (k == 1) { o = Op("delete", {r.chance(1, 8) ? -(int64_t)r.range(1, 8) : (int64_t)r.below((uint32_t)std::max(1, handles + 1))}); }
         else if (k == 2) { int64_t n = r.chance(1, 12) ? r.pick(TVALS) : r.range(1, 4); if (preemptive && n > 1000) n = r.chance(1, 3) ? n % 140000 : 3; o = Op("tick", {n}); }
         else if (k == 3) { o = Op("process"); }
+        else if (r.chance(1, 6)) { o = Op("reinit"); }
         else { o = Op("conv", {(int64_t)(r.chance(1, 2) ? r.below(65536) : r.pick({0, 1, 3, 10, 100, 1000, 65535, 30, 300})), (int64_t)r.below(2)}); }
         if (preemptive && r.chance(1, 3) && o.k != "tick") { int n = (int)r.range(1, 3); for (int j = 0; j < n; j++) o.b.push_back((uint8_t)r.below(12)); }
         p.ops.push_back(o);
